@@ -20,7 +20,19 @@ EV_DEFAULTS = dict(
     # step events of value-based routines (envs.ScriptEnv.exec_probe): action values (float32 ordinals) of the routine's
     # current estimate at the observation the action is executed in; acti = the discrete action as an int (-1: none)
     has_q=False, qrow=[], acti=-1,
+    # learn_rows: rows handed to a learner (obs, act, r4, next, term, has = names of the fields the row carries);
+    # experience: whole experience record of a model-based tabular learner (entries obs, act, next, n, rs), readable
+    lrows=[], rec=[], readable=True,
 )
+LROW_DEFAULTS = dict(obs=[-1, -1, -1], act="none", r4=0, next=[-1, -1, -1], term=False, has=[])
+REC_DEFAULTS = dict(obs=[-1, -1, -1], act="none", next=[-1, -1, -1], n=0, rs=[])
+
+
+def _sub(defaults, d):
+    out = dict(defaults)
+    out.update({k: v for k, v in d.items() if k in defaults})
+    out["act"] = str(out["act"])
+    return out
 
 
 def normalise(trace):
@@ -32,9 +44,13 @@ def normalise(trace):
     evs = []
     for e in trace["events"]:
         n = dict(EV_DEFAULTS)
-        for k in ("ev", "env", "obs", "next", "r4", "term", "trunc", "after_end", "n", "key", "step", "chosen", "argmax", "current", "auto", "chk_next", "chk_term", "table_current", "start", "same", "rel", "rows", "aliased", "has_q", "qrow"):
+        for k in ("ev", "env", "obs", "next", "r4", "term", "trunc", "after_end", "n", "key", "step", "chosen", "argmax", "current", "auto", "chk_next", "chk_term", "table_current", "start", "same", "rel", "rows", "aliased", "has_q", "qrow", "readable"):
             if k in e:
                 n[k] = e[k]
+        if "lrows" in e:
+            n["lrows"] = [_sub(LROW_DEFAULTS, r) for r in e["lrows"]]
+        if "rec" in e:
+            n["rec"] = [_sub(REC_DEFAULTS, r) for r in e["rec"]]
         if "act" in e:
             n["act"] = str(e["act"])
             if isinstance(e["act"], int) and not isinstance(e["act"], bool) and 0 <= e["act"] < 2 ** 31 - 1:
